@@ -85,13 +85,13 @@ def obligations(tier):
     CN = ('unc', 'snappy', 'lz4')
     # (spec, rows, row groups, rows per page, flavour, batch size, projection)
     TWO = [('is', 8, 2, 2, 0, 3, 0), ('Sb', 9, 1, 3, 1, 4, 0), ('xD', 10, 2, 2, 0, 5, 2), ('fl', 7, 1, 2, 1, 2, 1)]
-    THREE = [('ilS', 6, 1, 2, 0, 4, 0), ('BsD', 8, 2, 2, 0, 4, 0), ('sIx', 6, 2, 3, 1, 6, 0), ('IlsB', 9, 1, 2, 0, 3, 1)]      # 3 projected columns: 36 orders per call -> at most 3 calls with a batch
+    THREE = [('ilS', 6, 1, 2, 0, 4, 0), ('BsD', 8, 2, 2, 0, 4, 0), ('sIx', 6, 2, 3, 1, 6, 0), ('IlsB', 8, 1, 2, 0, 4, 1)]      # 3 projected columns: 36 orders per call -> at most 3 calls with a batch
     for om in (0, 1, 2):
         for ci, cn in enumerate(CN):
             for si, (spec, rows, nrg, page, fl, bs, pj) in enumerate(TWO):
                 if q and (si + om + ci) % 3: continue
                 o.append(interleave(spec, rows, nrg, page, fl, cn, om, bs, pj))
-                o.append(workers(spec, rows, nrg, page, fl, cn, om, bs, pj, threads=2 + (si + om) % 3))
+                o.append(workers(spec, rows, nrg, page, fl, cn, om, max(bs, 4), pj, threads=2 + (si + om) % 3))     # <= 3 calls with a batch: preemption choices multiply per parallel region
                 o.append(handles(spec, rows, nrg, page, fl, cn, om, bs, pj))
             for si, (spec, rows, nrg, page, fl, bs, pj) in enumerate(THREE):
                 if q and (si + om + ci) % 4: continue
@@ -102,6 +102,6 @@ def obligations(tier):
         # four projected columns: beyond the permutation model (sequential order only) but inside the two-worker model
         for om in (0, 1, 2):
             for cn in CN:
-                o.append(workers('IlsB', 8, 2, 2, 0, cn, om, 3, 0, threads=4, timeout=1800))
+                o.append(workers('IlsB', 8, 2, 2, 0, cn, om, 4, 0, threads=4, timeout=1800))
                 o.append(workers('bXdS', 6, 1, 2, 1, cn, om, 4, 0, threads=3, timeout=1800))
     return o + lazy_init(q)
